@@ -124,19 +124,46 @@ class Ctx:
         cls = repo.cls(modname, clsname) if modname else repo.find_class(clsname)
         ctx = repo.find_class(ctx_cls) if ctx_cls else cls
         f = cls.methods.get(meth) if own else ctx.lookup(meth)
+        inherited = False
         if f is None and own:
             # the class no longer defines the method itself but inherits one (e.g. two sibling definitions merged into
             # the base with a hook): what instances of this class do is still decided, in the context of this class
             f = cls.lookup(meth)
+            inherited = f is not None
             if f is not None and ctx_cls is None:
                 ctx = cls
         if f is None:
-            raise AnalysisError('%s: anchor vanished: %s.%s' % (rule, clsname, meth))
+            base_meth = meth.split('.')[0]
+            public = not base_meth.startswith('_') or (base_meth.startswith('__') and base_meth.endswith('__'))
+            if not public:
+                # a private anchor that is gone may have been renamed or inlined: nothing can be decided
+                raise AnalysisError('%s: anchor vanished: %s.%s' % (rule, clsname, meth))
+            # a public method the reference describes no longer exists on this class.  If the class is a base whose
+            # subclasses all still answer to it (the method was pushed down), each of them is compared in its own
+            # context; otherwise instances no longer have the behaviour at all
+            subs = [c for c in repo.subclasses(clsname, strict=True)] if hasattr(repo, 'subclasses') else []
+            if subs and all(c.lookup(meth) is not None for c in subs) and ctx_cls is None:
+                out = []
+                for c in subs:
+                    out.extend(self.table(rule, c.name, meth, spec_src, view, opts, None, region, False, what, None) or [])
+                return out
+            self.ob(rule, False)
+            lacking = [c.name for c in ([cls] + subs) if c.lookup(meth) is None]
+            self.violation(rule, '%s::%s' % (cls.module.relpath, clsname), 'no method %s' % meth,
+                           '%s: %s no longer define%s %s (instances raise AttributeError where the property\'s mechanism calls it)'
+                           % (what or 'behaviour the property requires', ', '.join(lacking), 's' if len(lacking) == 1 else '', meth),
+                           where='%s:%d' % (cls.module.relpath, cls.node.lineno))
+            return [None]
         view = view or View()
         opts = opts or Options(integer_dims=view.integer_dims)
         code = self.paths(ctx, f, opts)
         spec_src = self._rename_private_attrs(spec_src, ctx, f)
-        spec_f = parse_spec_function(spec_src, f.module, f.cls)
+        # the reference is a method of the class it is written for: `super()` in it starts after *that* class, also
+        # when the code under comparison is now inherited from a base
+        # (a definition moved into a base the confirmed tree does not have stays where it was found: `super()` there is
+        # `super()` of the class it was moved out of)
+        at_cls = inherited and f.cls is not None and not repo.is_extracted_base(f.cls)
+        spec_f = parse_spec_function(spec_src, cls.module if at_cls else f.module, cls if at_cls else f.cls)
         self._compare_signatures(rule, f, spec_f, ctx, cls, own)
         spec_paths, ex2 = function_paths(repo, ctx, spec_f, opts)
         if region is not None:
@@ -210,14 +237,32 @@ class Ctx:
         """number of parameters and default values (canonical terms) agree with the reference"""
         from .terms import term as _t
 
-        def sig(fn):
+        import ast as _ast
+        import copy as _copy
+
+        def dterm(x, mod):
+            # a default that names a private module-level function which only returns an expression of its parameters is
+            # the lambda it stands for (`flow2class=_identity` for `flow2class=lambda fid: fid`)
+            if isinstance(x, _ast.Name) and x.id.startswith('_'):
+                r = self.repo.resolve_name(mod, x.id)
+                if r and r[0] == 'func':
+                    fn = r[1].node
+                    body = [s_ for s_ in fn.body if not (isinstance(s_, _ast.Expr) and isinstance(s_.value, _ast.Constant))]
+                    if len(body) == 1 and isinstance(body[0], _ast.Return) and body[0].value is not None and not fn.args.defaults \
+                            and not fn.args.vararg and not fn.args.kwarg and not fn.args.kwonlyargs \
+                            and not any(isinstance(n, (_ast.Call, _ast.Yield, _ast.YieldFrom)) for n in _ast.walk(body[0].value)):
+                        x = _ast.Lambda(args=_ast.arguments(posonlyargs=[], args=[_ast.arg(arg=a_.arg) for a_ in fn.args.args],
+                                                            kwonlyargs=[], kw_defaults=[], defaults=[]), body=_copy.deepcopy(body[0].value))
+            return _t(x)
+
+        def sig(fn, mod):
             a = fn.args
             pos = a.posonlyargs + a.args
             d = [None] * (len(pos) - len(a.defaults)) + list(a.defaults)
-            out = [(_t(x) if x is not None else None) for x in d]
-            kw = [(k.arg, _t(v) if v is not None else None) for k, v in zip(a.kwonlyargs, a.kw_defaults)]
+            out = [(dterm(x, mod) if x is not None else None) for x in d]
+            kw = [(k.arg, dterm(v, mod) if v is not None else None) for k, v in zip(a.kwonlyargs, a.kw_defaults)]
             return out, kw, bool(a.vararg), bool(a.kwarg)
-        a, b = sig(f.node), sig(spec_f.node)
+        a, b = sig(f.node, f.module), sig(spec_f.node, f.module)
         ok = a == b
         self.ob(rule, ok)
         if not ok:
